@@ -1,13 +1,13 @@
 SPECIFICATION FairSpec
 CONSTANTS
   Subs = {"s1","s2"}
-  K = 2
-  Closers = {"c1"}
+  K = 1
+  Closers = {"c1","c2"}
   LegacyPlainSend = FALSE
   LegacyNoWgLock = FALSE
   MutClosingFirst = FALSE
-  MutSharedCtx = TRUE
-  MutEarlyReturn = FALSE
+  MutSharedCtx = FALSE
+  MutEarlyReturn = TRUE
 INVARIANTS TypeOK NoAddDuringWait ClosingAfterInner DropJustified InOrderOnce NothingLostSilently OutClosedAfterIn CloseComplete
-PROPERTIES CloseReturns CancelCloses
+
 CHECK_DEADLOCK FALSE
